@@ -84,6 +84,22 @@ func opDuplicate(g *G) (interface{}, []uint64, int, interface{}) {
 	if g.chance(0.1) {
 		mal = malformed(g, src)
 	}
+	if g.chance(0.12) {
+		// parameter vectors of other lengths than the customary 8 (Trait.Params is a free-length slice): 0..12, same for all
+		n := g.intn(13)
+		for _, t := range src.Traits {
+			p := make([]float64, n)
+			for i := range p {
+				if i < len(t.Params) {
+					p[i] = t.Params[i]
+				} else {
+					p[i] = float64(g.intn(100)) / 7
+				}
+			}
+			t.Params = p
+		}
+		family += "/traitlen"
+	}
 	before := dumpGenome(src)
 	newId := g.intn(1000)
 	dup, err := genetics.VerifDuplicate(src, newId)
